@@ -1,4 +1,193 @@
-(* Props/C03.v -- stub *)
+(* Props/C03.v -- property theorems for C03 (batching queued packets loses, duplicates or
+   reorders nothing).  Only statements; every proof is `exact <lemma>`; Print Assumptions under
+   each.  The functions are those of Model/Batch.v that `check` evaluates on every generated
+   queue: session_next (Session.next / pick / nextPacket / writeUnpack / mergeTags),
+   recv_tx (conn.process / receive / processMultiple), drain (next() until nothing is pending).
+
+   Reading aid:
+     wf_conf c        the session has a non-empty device ID and limits.Packets < 65536
+     queueable p      p is something a session queues: not itself a container or oneshot packet,
+                      a fragment carries its count, job number assigned, valid tags
+     all_reg reg i q  every foreign device in q has a session on the receiving listener
+     direct i p       what the peer does with p when p arrives on its own at the session of its
+                      device (the list of packets handed to receiveSingle / the fragment table)
+     abandon i l q    q without the leading run of packets of the abandoned group l (state.Last)
+     untag_d          forgets the tags of a delivered packet (the peer clears the tags of packed
+                      packets; ID, job, device, flags, payload length and content id are kept) *)
 From XMT Require Import Base.Prelude Model.Batch Proofs.Batch.
-Theorem C03_stub : True. Proof. exact stub_true. Qed.
-Print Assumptions C03_stub.
+
+(* ---- drain_delivers_queue ---------------------------------------------------------------
+   For ALL queues and however many transmissions the drain takes: the concatenation, over the
+   successive transmissions, of what the receiver's unpacking hands to its per-packet processing
+   is exactly what it would have seen had every queued packet arrived on its own, in queue order,
+   each once.  Keep-alives contribute nothing (direct i p = [] for them), the abandoned group is
+   skipped.  No size hypothesis: an oversized packet is sent on its own. *)
+Theorem C03_drain_delivers_queue :
+  forall c reg last q,
+    wf_conf c -> Forall (fun p => queueable p = true) q -> all_reg reg (c_own c) q ->
+    map untag_d (deliveries (drain c reg (mkS q None last))) =
+    flat_map (direct (c_own c)) (abandon (c_own c) last q).
+Proof. exact drain_delivers_queue. Qed.
+Print Assumptions C03_drain_delivers_queue.
+
+(* The same in the literal form of the property: when the queue holds keep-alives and ordinary
+   data packets (`plain`: not the SvComplete notice, fragments carry a count >= 2), the delivered
+   sequence IS the queued sequence without the keep-alives, each packet delivered to the session
+   of its device with id, job, device, flags, length and content intact. *)
+Theorem C03_drain_delivers_plain :
+  forall c reg last q,
+    wf_conf c ->
+    Forall (fun p => queueable p = true /\ (is_nop p = true \/ plain p = true)) q ->
+    all_reg reg (c_own c) q ->
+    map untag_d (deliveries (drain c reg (mkS q None last))) =
+    map (to_own (c_own c)) (filter (fun p => negb (is_nop p)) (abandon (c_own c) last q)).
+Proof. exact drain_delivers_plain. Qed.
+Print Assumptions C03_drain_delivers_plain.
+
+(* a non-keep-alive ordinary packet on its own is handed over unchanged *)
+Theorem C03_direct_plain_is_identity :
+  forall i p, i <> 0 -> queueable p = true -> plain p = true -> is_nop p = false ->
+    direct i p = [to_own i p].
+Proof. exact direct_plain. Qed.
+Print Assumptions C03_direct_plain_is_identity.
+
+(* ---- carry_over_never_lost ---------------------------------------------------------------
+   From ANY state: the packet that did not fit the budget becomes peek, it is one of the pending
+   packets, and it is the first packet of the next transmission (tags aside: next() replaces the
+   tags of the packet it picks when a proxy is active). *)
+Theorem C03_carry_over_never_lost :
+  forall c st tx st' k,
+    wf_conf c -> Forall (fun p => queueable p = true) (pending st) ->
+    session_next c st = (Some tx, st') -> s_peek st' = Some k ->
+    In k (pending st) /\
+    exists tx' st'', session_next c st' = (Some tx', st'') /\
+      exists v, first_packet tx' = Some v /\ untag v = untag (norm (c_own c) k).
+Proof. exact carry_over_q. Qed.
+Print Assumptions C03_carry_over_never_lost.
+
+(* ---- batch_within_budget -------------------------------------------------------------------
+   From ANY state: a container with more than one packet has total Size() <= limits.Frag, at most
+   limits.Packets packets, and its Len field is the number of packets in it. *)
+Theorem C03_batch_within_budget :
+  forall c st o st',
+    wf_conf c -> Forall (fun p => queueable p = true) (pending st) ->
+    session_next c st = (Some (TMulti o), st') -> 1 < len (c_in o) ->
+    sum_size (c_in o) <= c_frag c /\ len (c_in o) <= c_packets c /\ f_len (c_fl o) = len (c_in o).
+Proof. exact session_next_budget. Qed.
+Print Assumptions C03_batch_within_budget.
+
+(* ... in particular for every transmission of every drain *)
+Theorem C03_drain_batches_within_budget :
+  forall c reg last q s o,
+    wf_conf c -> Forall (fun p => queueable p = true) q -> all_reg reg (c_own c) q ->
+    In s (drain c reg (mkS q None last)) -> st_tx s = TMulti o -> 1 < len (c_in o) ->
+    sum_size (c_in o) <= c_frag c /\ len (c_in o) <= c_packets c /\ f_len (c_fl o) = len (c_in o).
+Proof. exact drain_batches_within_budget. Qed.
+Print Assumptions C03_drain_batches_within_budget.
+
+(* ---- progress / termination ------------------------------------------------------------------
+   Every transmission from a state with something pending consumes at least one packet; what
+   remains pending is a proper suffix of what was pending (nothing is re-queued or reordered). *)
+Theorem C03_progress :
+  forall c reg st tx st',
+    wf_conf c -> Forall (fun p => queueable p = true) (pending st) -> all_reg reg (c_own c) (pending st) ->
+    session_next c st = (Some tx, st') -> pending st <> [] ->
+    (length (pending st') < length (pending st))%nat /\
+    exists pre, pre <> [] /\ pending st = pre ++ pending st'.
+Proof. exact progress_q. Qed.
+Print Assumptions C03_progress.
+
+(* Hence the fuel of `drain` (number of queued packets + 1) never runs out: more fuel gives the
+   same drain, every step is a call of next() on a suffix of the queue that makes progress, and
+   after the last step nothing is pending. *)
+Theorem C03_drain_terminates :
+  forall c reg lg q,
+    wf_conf c -> Forall (fun p => queueable p = true) q -> all_reg reg (c_own c) q ->
+    (forall extra, drain_fuel c reg (S (length q) + extra) (mkS q None lg) = drain c reg (mkS q None lg)) /\
+    (forall s, In s (drain c reg (mkS q None lg)) ->
+       exists st0 pre, q = pre ++ pending st0 /\ session_next c st0 = (Some (st_tx s), st_after s) /\
+                       (pending st0 <> [] -> (length (pending (st_after s)) < length (pending st0))%nat)) /\
+    (forall s0, drain c reg (mkS q None lg) = [] \/
+                pending (st_after (last (drain c reg (mkS q None lg)) s0)) = []).
+Proof. exact drain_terminates. Qed.
+Print Assumptions C03_drain_terminates.
+
+(* ---- tags ---------------------------------------------------------------------------------------
+   mergeTags returns exactly the union of its arguments (Go iterates a map: order unspecified,
+   duplicates removed), and the tags of a transmission are exactly the tags next() started from
+   (those of the packet picked first, or the proxy's) together with the tags of every packet in it. *)
+Theorem C03_tags_preserved_as_set :
+  forall a b y, In y (merge_tags a b) <-> In y a \/ In y b.
+Proof. exact merge_tags_in. Qed.
+Print Assumptions C03_tags_preserved_as_set.
+
+Theorem C03_transmission_tags :
+  forall c reg st tx st',
+    wf_conf c -> Forall (fun p => queueable p = true) (pending st) -> all_reg reg (c_own c) (pending st) ->
+    session_next c st = (Some tx, st') ->
+    forall y, In y (tx_tags tx) <->
+              In y (first_tags c st) \/ exists v, In v (tx_packets tx) /\ In y (p_tags v).
+Proof. exact session_next_tags. Qed.
+Print Assumptions C03_transmission_tags.
+
+(* ---- abandoned_group_skipped ------------------------------------------------------------------
+   What next() leaves out because the peer abandoned group l is exactly the leading run of packets
+   of group l (a lone packet of our own is sent regardless); with l = 0 nothing is left out. *)
+Theorem C03_abandoned_group_skipped :
+  forall i l q,
+    abandon i l q =
+    match q with
+    | [n] => if is_own i n then q else if 0 <? l then dropwhile (in_group l) q else q
+    | _ => if 0 <? l then dropwhile (in_group l) q else q
+    end.
+Proof. exact abandon_spec. Qed.
+Print Assumptions C03_abandoned_group_skipped.
+
+(* ---- the keep-alive-only queue (observation, not a violation) -----------------------------------
+   A queue of at least two keep-alives of our own yields a container with Len = 0 which the peer
+   rejects with ErrInvalidPacketCount; nothing is delivered, which is what the property asks for. *)
+Theorem C03_keepalive_only_queue_rejected :
+  forall c reg q,
+    wf_conf c -> 2 <= c_packets c -> (2 <= length q)%nat ->
+    Forall (fun p => own_nop (c_own c) p = true) q ->
+    exists o st', session_next c (mkS q None 0) = (Some (TMulti o), st') /\
+      f_len (c_fl o) = 0 /\ c_in o = [] /\ recv_tx reg (c_own c) (TMulti o) = ([], E_COUNT).
+Proof. exact all_nop_rejected. Qed.
+Print Assumptions C03_keepalive_only_queue_rejected.
+
+(* ... and that is the only error the receiver can report during a drain *)
+Theorem C03_drain_errors_only_empty_container :
+  forall c reg last q s,
+    wf_conf c -> Forall (fun p => queueable p = true) q -> all_reg reg (c_own c) q ->
+    In s (drain c reg (mkS q None last)) ->
+    st_err s = 0 \/
+    (st_err s = E_COUNT /\ st_dlv s = [] /\ exists o, st_tx s = TMulti o /\ c_in o = []).
+Proof. exact drain_errors. Qed.
+Print Assumptions C03_drain_errors_only_empty_container.
+
+(* ---- non-vacuity ---------------------------------------------------------------------------------
+   F = 256 KiB, Packets = 32, own device 1, device 2 registered.  Queue: a large own packet, a
+   keep-alive, a tagged packet for device 2, a small packet with an empty device ID, a large own
+   packet.  Three transmissions: [p1] (the keep-alive is elided, p2 does not fit and is carried
+   over), a multi-device container [p2; p3], then [p4] which did not fit either. *)
+Definition ex_conf : conf := mkConf 262144 32 1 false None.
+Definition ex_reg (d : Z) : bool := d =? 2.
+Definition ex_queue : list packet :=
+  [ pk 7 1 1 0 [] 200000 11; keepalive 1 []; pk 8 2 2 0 [5] 100000 12; pk 9 3 0 0 [] 10 13; pk 10 4 1 0 [] 262000 14 ].
+
+Example C03_nonvacuous :
+  wf_conf ex_conf /\
+  Forall (fun p => queueable p = true /\ (is_nop p = true \/ plain p = true)) ex_queue /\
+  all_reg ex_reg (c_own ex_conf) ex_queue /\
+  length (drain ex_conf ex_reg (mkS ex_queue None 0)) = 3%nat /\
+  map (fun s => s_peek (st_after s)) (drain ex_conf ex_reg (mkS ex_queue None 0)) =
+    [Some (pk 8 2 2 0 [5] 100000 12); Some (pk 10 4 1 0 [] 262000 14); None] /\
+  map (fun s => len (tx_packets (st_tx s))) (drain ex_conf ex_reg (mkS ex_queue None 0)) = [1; 2; 1] /\
+  map untag_d (deliveries (drain ex_conf ex_reg (mkS ex_queue None 0))) =
+    [ dl 1 7 1 1 0 [] 200000 11; dl 2 8 2 2 0 [] 100000 12; dl 1 9 3 1 0 [] 10 13; dl 1 10 4 1 0 [] 262000 14 ].
+Proof.
+  split; [vm_compute; split; [discriminate|reflexivity]|].
+  split; [repeat (constructor; [vm_compute; split; [reflexivity|auto]|]); constructor|].
+  split; [repeat (constructor; [vm_compute; auto|]); constructor|].
+  repeat split; vm_compute; reflexivity.
+Qed.
